@@ -36,6 +36,7 @@ type scenario struct {
 	ExpectFail bool              `json:"expect_fail"` // the fault-free run has to report an error (rule 5)
 	RelCwd     bool              `json:"relative_paths"`
 	Symlinks   map[string]string `json:"symlinks"`  // relative link path -> relative target, created after Files
+	Hardlinks  map[string]string `json:"hardlinks"` // relative link path -> relative existing file (a second name for the same inode)
 	NoFaults   bool              `json:"no_faults"` // corpus scenarios: fault-free run only (the formatter is the subject, not the file operations)
 }
 
@@ -130,6 +131,17 @@ func scenarios(thorough bool) []*scenario {
 				out = append(out, l)
 			}
 		}
+		if prior == "existing" {
+			// -o has a second hard link (link count 2): tools that "preserve links" rewrite such files in place
+			for _, in := range []struct {
+				class, schema string
+				fail          bool
+			}{{"valid", schemaValid, false}, {"validation-error", schemaUndefined, true}} {
+				l := compileScenario(in.class+"/output-is-hard-linked", in.schema, prior, in.fail)
+				l.Hardlinks = map[string]string{"gen/second-name.go": "out.go"}
+				out = append(out, l)
+			}
+		}
 		d := compileScenario("unreadable-input/directory", "", prior, true)
 		d.Dirs = []string{"in.bop"}
 		out = append(out, d)
@@ -157,6 +169,14 @@ func scenarios(thorough bool) []*scenario {
 		fmtFileScenario("formatter-mangled/typed-enum", schemaTypedEnum, false),
 		fmtFileScenario("formatter-mangled/flags-enum", schemaFlagsEnum, false),
 	)
+	hl := fmtFileScenario("valid/file-is-hard-linked", schemaValidRaw, false)
+	hl.Hardlinks = map[string]string{"elsewhere/second-name.bop": "file.bop"}
+	out = append(out, hl)
+	// lines longer than any reader buffer (bufio: 4096 bytes, bufio.Scanner: 64 KiB) between definitions
+	for _, n := range []int{4096, 70000} {
+		long := "struct A {\nint32 x;\n}\n// " + strings.Repeat("c", n) + "\nmessage M {\n1 -> string s;\n}\nenum E {\nOne = 1;\n}\n"
+		out = append(out, fmtFileScenario(fmt.Sprintf("valid/comment-line-of-%d-bytes", n), long, false))
+	}
 	if fp := formatFixpoint(schemaValidRaw); fp != "" {
 		out = append(out, fmtFileScenario("valid/already-formatted", fp, false))
 	}
